@@ -272,7 +272,7 @@ pub fn gen_case(check: &str, thorough: bool, seed: u64, index: u64) -> Option<Ca
          if rng.chance(500) {
             case.knobs.steal_permille = 1000;
          }
-         case.label = format!("{}/pool{}/construct{}", sc.ty, sc.pool, sc.construct_pool);
+         case.label = format!("{}/pool{}/construct{}{}", sc.ty, sc.pool, sc.construct_pool, ["", "-split1", "-split2"][sc.split_construct.min(2) as usize]);
          case.index_scenario = Some(sc);
          case
       },
